@@ -60,6 +60,133 @@ func unitConsistencyLoop(w *World, fn *ssa.Function) *ssa.BasicBlock {
 	return nil
 }
 
+// conflictTableWrong evaluates, in the consistency loop with header h, when an already bound variable leads to the
+// Unsat store: for the four combinations of (binding positive / negative, unit positive / negative) it must be
+// exactly when the signs differ. Returns "" when that is so (or when the shape is not the bound/unbound split this
+// check knows), otherwise what is wrong.
+func conflictTableWrong(w *World, fn *ssa.Function, h *ssa.BasicBlock) string {
+	unsat, _ := w.statusConst("Unsat")
+	body := loopBlocks(fn, h)
+	isModelEntry := func(v ssa.Value) bool {
+		ld, ok := v.(*ssa.UnOp)
+		if !ok || ld.Op != token.MUL {
+			return false
+		}
+		ia, ok := ld.X.(*ssa.IndexAddr)
+		if !ok {
+			return false
+		}
+		_, isM := isFieldLoad(ia.X, "solver.Problem", "Model")
+		return isM
+	}
+	var split *ssa.If
+	for b := range body {
+		if iff, ok := b.Instrs[len(b.Instrs)-1].(*ssa.If); ok {
+			if bo, isB := iff.Cond.(*ssa.BinOp); isB && bo.Op == token.EQL && isModelEntry(bo.X) {
+				if k, isK := constInt(bo.Y); isK && k == 0 {
+					split = iff
+				}
+			}
+		}
+	}
+	if split == nil {
+		return ""
+	}
+	// evaluate a condition under (bindingPositive, unitPositive); ok=false when it is not made of the known atoms
+	var eval func(v ssa.Value, mp, up bool) (val bool, ok bool)
+	eval = func(v ssa.Value, mp, up bool) (bool, bool) {
+		switch x := v.(type) {
+		case *ssa.UnOp:
+			if x.Op == token.NOT {
+				a, ok := eval(x.X, mp, up)
+				return !a, ok
+			}
+		case *ssa.Call:
+			if strings.HasSuffix(w.calleeName(&x.Call), ".IsPositive") {
+				return up, true
+			}
+		case *ssa.BinOp:
+			if isModelEntry(x.X) {
+				if k, isK := constInt(x.Y); isK && (k == 0 || k == 1 || k == -1) {
+					m := int64(-1)
+					if mp {
+						m = 1
+					}
+					switch x.Op {
+					case token.GTR:
+						return m > k, true
+					case token.LSS:
+						return m < k, true
+					case token.GEQ:
+						return m >= k, true
+					case token.LEQ:
+						return m <= k, true
+					case token.EQL:
+						return m == k, true
+					case token.NEQ:
+						return m != k, true
+					}
+				}
+			}
+			if x.Op == token.EQL || x.Op == token.NEQ {
+				a, ok1 := eval(x.X, mp, up)
+				b, ok2 := eval(x.Y, mp, up)
+				if ok1 && ok2 {
+					return (a == b) == (x.Op == token.EQL), true
+				}
+			}
+		}
+		return false, false
+	}
+	for _, mp := range []bool{true, false} {
+		for _, up := range []bool{true, false} {
+			b := split.Block().Succs[1]
+			fails, known := false, true
+			for steps := 0; steps < 50; steps++ {
+				for _, ins := range b.Instrs {
+					if st, ok := ins.(*ssa.Store); ok && qualField(st.Addr) == "solver.Problem.Status" {
+						if v, ok := constInt(st.Val); ok && v == unsat {
+							fails = true
+						}
+					}
+				}
+				if fails || b == h || !h.Dominates(b) {
+					break
+				}
+				last := b.Instrs[len(b.Instrs)-1]
+				if iff, ok := last.(*ssa.If); ok {
+					val, okE := eval(iff.Cond, mp, up)
+					if !okE {
+						known = false
+						break
+					}
+					if val {
+						b = b.Succs[0]
+					} else {
+						b = b.Succs[1]
+					}
+					continue
+				}
+				if len(b.Succs) != 1 {
+					break
+				}
+				b = b.Succs[0]
+			}
+			if !known {
+				return ""
+			}
+			if fails != (mp != up) {
+				sign := map[bool]string{true: "positive", false: "negative"}
+				if fails {
+					return fmt.Sprintf("the loop that compares the unit literals concludes Unsat for a variable bound %s and a %s unit literal, which agree", sign[mp], sign[up])
+				}
+				return fmt.Sprintf("the loop that compares the unit literals does not conclude Unsat for a variable bound %s and a %s unit literal: the two opposite unit clauses are read as satisfiable (the second one is ignored)", sign[mp], sign[up])
+			}
+		}
+	}
+	return ""
+}
+
 func ruleR2_7(w *World, r *Report) {
 	r.Rule("R2.7", "every constraint front-end that puts unit literals into Problem.Units itself (not through the checked addUnit) binds them in a loop that concludes Unsat on two opposite units, before the simplifier runs", 4)
 	eff := w.effects()
@@ -130,7 +257,11 @@ func ruleR2_7(w *World, r *Report) {
 		case !h.Dominates(simp.Block()):
 			r.Bad("R2.7", key, w.InstrPos(simp), "the simplifier can run on a path that has not checked the unit literals")
 		default:
-			r.OK("R2.7", key, w.InstrPos(simp), "consistency loop over Units dominates the simplifier")
+			if why := conflictTableWrong(w, fn, h); why != "" {
+				r.Bad("R2.7", key, w.InstrPos(simp), why)
+			} else {
+				r.OK("R2.7", key, w.InstrPos(simp), "consistency loop over Units dominates the simplifier; Unsat exactly when the variable is bound with the other sign")
+			}
 		}
 	}
 	if n == 0 {
